@@ -2,6 +2,8 @@
 """C03 SMILES reader rejects what is outside the language with the library's ValueError -- rejection-discipline clauses."""
 from ..r_readers import (rule_raise_family, rule_implicit_raises, rule_tokenizer_fsm, rule_negative_count_slices, DAYLIGHT)
 from ..r_codebooks import rule_charge_spellings
+from ..r_reaction import rule_role_zip as _rule_role_zip
+from ..r_codebooks import rule_closure_slots as _rule_closure_slots
 
 LEVEL = 'other'
 EXEMPT = {('_convert', 'create_molecule', 'AtomNotFound'): 'infeasible for the daylight readers: every bond end was just inserted by the same parser '
@@ -21,3 +23,5 @@ def run(ck, repo):
     rule_tokenizer_fsm(ck, repo, 'C03.F-fsm')
     rule_negative_count_slices(ck, repo, 'C03.E3-slices', ['chython.files.daylight.smiles:smiles'])
     rule_charge_spellings(ck, repo, 'C03.D2-charge-spellings')
+    _rule_role_zip(ck, repo, 'C03.D1-role-pairing', lambda f: f.module.name == 'chython.files.daylight.smiles', floor=1)
+    _rule_closure_slots(ck, repo, 'C03.D2-closure-slots')
